@@ -235,6 +235,8 @@ def _session_steps(r: Rng) -> typing.List[dict]:
                 st["omit_ser"] = True
             if rs.chance(1, 6):
                 st["which"] = rs.choice(["types", "support"])
+            if k == "gen" and rs.chance(1, 5):
+                st["fault_pick"] = [rs.choice(["oserror", "write_oserror"])]  # this call fails half-way; the caller carries on
         elif k == "edit":
             st.update({"how": rs.choice(["content", "content", "chmod", "remove", "truncate"]), "pick": rs.below(1000), "mode": rs.choice([0o644, 0o444, 0o600, 0o400]), "size": rs.choice([0, 1, 50])})
             if st["how"] == "content":
@@ -498,7 +500,7 @@ def run_case(case: dict, ctx: dict) -> dict:
                         evaluations += 1
                         recs = rres.get("session") or []
                         okr = nnvg.succeeded(rres) and recs and recs[0]["status"] == "ok"
-                        ref_cache[key] = {"files": {k: (v[4], v[2], v[5] if len(v) > 5 else None) for k, v in recs[0]["after"].items() if v[0] == "f"}} if okr else {"files": None}
+                        ref_cache[key] = {"files": {k: (v[4], v[2], v[5] if len(v) > 5 else None) for k, v in recs[0]["after"].items() if v[0] == "f"}, "counts": {"mut_count": recs[0].get("mut_count", 0), "writes_per_file": recs[0].get("writes_per_file", [])}} if okr else {"files": None}
                     finally:
                         if os.path.lexists(out):
                             nnvg._force_rmtree(out)  # pylint: disable=protected-access
@@ -506,6 +508,14 @@ def run_case(case: dict, ctx: dict) -> dict:
                             os.rename(aside, out)
                 return ref_cache[key]["files"]
 
+            for sj, st in enumerate(session["steps"]):
+                if st.get("fault_pick"):
+                    kinds = st.pop("fault_pick")
+                    op["steps"][sj].pop("fault_pick", None)
+                    if session_reference(st) is not None:
+                        key = "session|" + repr((sorted((k, str(v)) for k, v in sopts.items()), bool(st.get("omit_ser")), st.get("which", "both"), world_knobs["umask"]))
+                        st["fault"] = nnvg.pick_fault(r.sub("sfault", ti, sj), ref_cache[key]["counts"], kinds)
+                    op["steps"][sj]["fault"] = st.get("fault")
             res = run_session(session)
             evaluations += 1
             ev_digests.append(nnvg.event_digest(res))
@@ -537,6 +547,20 @@ def run_case(case: dict, ctx: dict) -> dict:
                     bump("probes", "api_regenerated_over_existing")
                 if rec["i"] > 0:
                     bump("probes", "api_generate_all_again_on_used_generator_objects")
+                if rec.get("fault_fired"):
+                    any_fault = True
+                    bump("faults_fired", "api:" + (step.get("fault") or {}).get("kind", "?"))
+                    if not ok:
+                        # an injected error may make THIS call fail (what it had already written stays judged by the next
+                        # call); a call that reports success although it was hit is held to the full oracle below
+                        if not step.get("allow_overwrite", True):
+                            changed = [p for p in sorted(rec["before"]) if rec["after"].get(p) != rec["before"][p]]
+                            if changed:
+                                violation("no-overwrite-modified:%s" % nnvg.sig_kind(changed[0]), dict(short, changed=changed[:5]))
+                        bump("probes", "api_call_aborted_by_injected_error")
+                        continue
+                if any(r2.get("fault_fired") and r2.get("status") != "ok" for r2 in (res.get("session") or [])[: rec["i"]] if r2.get("k") == "gen"):
+                    bump("probes", "api_call_after_aborted_call_on_same_objects")
                 if not step.get("allow_overwrite", True):
                     changed = [p for p in sorted(rec["before"]) if rec["after"].get(p) != rec["before"][p]]
                     if changed:
